@@ -29,6 +29,8 @@ type PropDef struct {
 
 var props = map[string]*PropDef{}
 
+var evidenceDir string
+
 func registerProps() {
 	for _, p := range []*PropDef{
 		{ID: "C17", Title: "Source loading maps every file to its package and a real common root", DesignRef: "§4 C17"},
@@ -207,7 +209,11 @@ func cmdCheck(args []string) {
 	id := args[0]
 	fs := flag.NewFlagSet("check", flag.ExitOnError)
 	tier := fs.String("tier", "", "quick or thorough")
+	evdir := fs.String("evidence-dir", "", "write evidence here instead of /verif/evidence (self-test)")
 	fs.Parse(args[1:])
+	if *evdir != "" {
+		evidenceDir = *evdir
+	}
 	if *tier == "" {
 		*tier = os.Getenv("VERIF_TIER")
 	}
@@ -236,7 +242,16 @@ func runCheck(p *PropDef, tier string, seed int64) int {
 	os.RemoveAll(cc.outDir)
 	os.MkdirAll(cc.outDir, 0o755)
 	os.MkdirAll(cc.replayDir, 0o755)
-	os.MkdirAll(filepath.Join(verifDir, "evidence"), 0o755)
+	if evidenceDir == "" {
+		evidenceDir = filepath.Join(verifDir, "evidence")
+	} else {
+		// self-test runs must not disturb the real outputs
+		cc.outDir = filepath.Join(evidenceDir, "out", p.ID)
+		cc.replayDir = filepath.Join(evidenceDir, "replays", p.ID)
+		os.MkdirAll(cc.outDir, 0o755)
+		os.MkdirAll(cc.replayDir, 0o755)
+	}
+	os.MkdirAll(evidenceDir, 0o755)
 	w, err := loadWorld()
 	if err != nil {
 		// the tree does not load (does not compile): not a verdict about the property
@@ -460,7 +475,7 @@ func runCheck(p *PropDef, tier string, seed int64) int {
 	ev.WallS = time.Since(t0).Seconds()
 	ev.Violations = cc.violations
 	data, _ := json.MarshalIndent(ev, "", " ")
-	os.WriteFile(filepath.Join(verifDir, "evidence", p.ID+".json"), data, 0o644)
+	os.WriteFile(filepath.Join(evidenceDir, p.ID+".json"), data, 0o644)
 	fmt.Printf("govc: %s tier=%s functions=%d obligations=%d discharged=%d known=%d violations=%d wall=%.1fs\n",
 		p.ID, tier, len(results), len(real), discharged, len(knownPrinted), cc.violations, ev.WallS)
 	if cc.violations > 0 {
